@@ -377,7 +377,10 @@ def run_x(xcases, inputs_of, trace=False, variants=VARIANTS, timeout=900):
                 outp = os.path.join(d, pkg + ".ts")
             src = render_x(c["xs"], target, pkg, obj, trace)
             jid = "%s|%s" % (c["id"], vname)
-            jobs.append({"id": jid, "src": src, "out": outp, "target": target, "unpack": unpack, "object": obj})
+            job = {"id": jid, "src": src, "out": outp, "target": target, "unpack": unpack, "object": obj}
+            if ci % 3 == 0:
+                job["dotg"] = outp + ".dot"        # the -g option: the graph is drawn during the same run
+            jobs.append(job)
             meta[jid] = {"case": c, "variant": vname, "pkg": pkg, "out": outp, "target": target, "src": src}
     inp = "".join(json.dumps(j) + "\n" for j in jobs).encode()
     p = common.sh([os.path.join(common.BIN, "yharness"), "xgen"], inp=inp, timeout=timeout)
